@@ -64,6 +64,8 @@ class _RunOne:
         seed = common.derive_seed(self.base_seed, mod.PROPERTY, idx)
         case = mod.generate(seed, self.tier, idx)
         res = mod.execute(case)
+        if res.get("fail_case") is not None:
+            case = res["fail_case"]
         agg.evaluations += res.get("evaluations", 1)
         for k, v in res.get("counters", {}).items():
             agg.count(k, v)
